@@ -88,6 +88,14 @@ func faultResponder(p *peer, ci, ri int, req *wireMsg, w io.Writer) bool {
 		}
 		w.Write(head[:k])
 		return abort()
+	case "rst_body_eof":
+		// a reply delimited by the end of the connection, which is reset - not ended - in the middle of the body
+		if k > len(body)-1 {
+			k = len(body) - 1
+		}
+		w.Write(append([]byte("HTTP/1.1 200 OK\r\nContent-Type: application/octet-stream\r\nX-Fault-Origin: yes\r\nConnection: close\r\n\r\n"), body[:k]...))
+		rst = true
+		return abort()
 	case "cut_body_cl", "cut_body_chunked", "rst_body":
 		if k > len(body)-1 {
 			k = len(body) - 1
@@ -307,7 +315,7 @@ func c12Run(e *env) {
 				ks = append(ks, k)
 			}
 			ks = append(ks, 1, 8, 9, 15, 16, 17, headLen-4, headLen-3, headLen-2, headLen-1)
-		case "cut_body_cl", "cut_body_chunked", "rst_body":
+		case "cut_body_cl", "cut_body_chunked", "rst_body", "rst_body_eof":
 			ks = []int{0, 1, 5, 999, 1000, 1001, 1005, 1006, 1007, 2000, 2999}
 			if c.F == "cut_body_chunked" {
 				ks = append(ks, 3, 4, 2005, 2010, 3014, 3015, 3016, 3017, 3018, 3019)
